@@ -13,7 +13,7 @@ def run(chk):
                 "mpq, mpz, int8, double; Rational_Box, Z_Box, Int8_Box, Double_Box) histories of 2 objects built by every constructor, then mutators of the "
                 "whole common interface with constants drawn at the limits of the carrier (int8: 120..130 and halves; double: thirds, 2^53+-1, 1e300, 2^-1074), "
                 "converting constructors from C/NNC polyhedra, grids, generator systems and the other 11 instantiations at each complexity class, pairs "
-                "disjoint through a cycle, twins; a step is distinct by (kind, operation text); each result is judged against the exact result computed by "
+                "disjoint through a cycle, twins, targeted batteries (half-open boxes met exactly by constraints, non-dividing equalities, general-form transformers on bounded shapes, lazy state vs twin, straddled-equality differences); a step is distinct by (kind, operation text); each result is judged against the exact result computed by "
                 "the verified reference on the rational denotation of the ARGUMENTS AS THE IMPLEMENTATION HOLDS THEM (read from its private matrices)")
     chk.trusted += shapescheck.TRUSTED
     chk.assumptions += [
